@@ -145,7 +145,7 @@ def run(ctx):
     ctx.guard(_helpers.integrator_argument_forms, ctx, py, "C01")
     # frame of the modules under contract (no state kept between calls, arguments left alone): same analysis as C19
     from props import C19 as _C19
-    ctx.guard(_C19.frame_obligations, ctx, py, "C01", {'strapdown', 'earth', '_numba_integrate'})
+    ctx.guard(_C19.frame_obligations, ctx, py, "C01", {'_numba_integrate', 'util', 'transform', 'earth', 'strapdown'})
 
 
 # ---------------------------------------------------------------------------------------------
